@@ -234,7 +234,7 @@ def all_factories():
 def run(ctx):
     rng = ctx.subrng("c13")
     facts = all_factories()
-    reps = ctx.budget(3, 40)
+    reps = ctx.budget(6, 40)
     for name, (factory, params) in facts.items():
         if name in ("FPRGaussian", "UserWaveguide2m"):
             continue
@@ -242,7 +242,7 @@ def run(ctx):
             if ctx.time_left() < 0:
                 return
             check_expand(ctx, rng, name, factory, params, force_sweep=(r == 0))
-    for i in range(ctx.budget(150, 2500)):
+    for i in range(ctx.budget(300, 2500)):
         if ctx.time_left() < 0:
             return
         check_connect_all(ctx, rng, i)
